@@ -25,9 +25,23 @@ class Project:
                 f.write(text)
         self.srv = LspServer(self.dir, env=env)
         self.init = self.srv.initialize()
+        self.open = set(open_files)
+        self.version = 1
         for name in open_files:
             self.srv.did_open(self.path(name), files[name])
         self.srv.barrier()
+
+    def set_contents(self, contents):
+        """Brings the project to `contents` the way a client does: files that are not open in the editor change on disk,
+        open ones through didChange (sent last, so that the server looks at the disk again)."""
+        for name in sorted(contents):
+            if name not in self.open:
+                with open(self.path(name), "w", newline="") as f:
+                    f.write(contents[name])
+        for name in sorted(contents):
+            if name in self.open:
+                self.version += 1
+                self.srv.did_change(self.path(name), contents[name], self.version)
 
     def path(self, name):
         return os.path.join(self.dir, name)
